@@ -464,7 +464,7 @@ func init() {
 	})
 
 	register(&Rule{
-		ID: "C10.R4", Props: []string{"C10", "C09", "C17", "C02", "C04", "C05", "C12", "C16"}, Min: 2,
+		ID: "C10.R4", Props: []string{"C10", "C09", "C17", "C02", "C04", "C05", "C12", "C16", "C14", "C15"}, Min: 2,
 		Doc: "pooled objects are clean when they go back: every sync.Pool.Put(x) is dominated by a reset of x (delete-all loop or clear() for maps, Reset() for builders, field clearing) and x does not escape (returned / stored) after the Put",
 		Run: func(p *Prog, c *Ctx) {
 			for _, fn := range p.Funcs {
@@ -630,7 +630,7 @@ func init() {
 	})
 
 	register(&Rule{
-		ID: "C10.R6", Props: []string{"C10", "C15", "C09", "C13", "C20", "C03", "C04"}, Min: 3, // C03/C04: a condition or per-item expression is a function of its text and the current scope only
+		ID: "C10.R6", Props: []string{"C10", "C15", "C09", "C13", "C20", "C03", "C04", "C17", "C05", "C08"}, Min: 3, // C03/C04: a condition or per-item expression is a function of its text and the current scope only
 		Doc: "memoised results are keyed by everything they depend on: for every cache written while rendering — a mutex-guarded map of an engine object, or a package-level sync.Map / map — the value stored under a key is computed only from the key (plus constants and, for a per-engine cache, the engine's own configuration); it never depends on per-call data that is not part of the key, and a package-level cache never depends on the instance that filled it",
 		Run: func(p *Prog, c *Ctx) {
 			cone := p.Cone(append(p.concurrentEntries(), p.exportedEntries(markdownPkg)...)...)
@@ -640,6 +640,7 @@ func init() {
 				// (case folding, whitespace collapsing, trimming, replacing): the key is a lossy digest of them
 				lossyVia := map[*ssa.Parameter]string{}
 				exact := map[*ssa.Parameter]bool{}
+				lossyMerged := map[*ssa.Parameter]bool{} // the key is a φ of the parameter itself and a digest of it
 				lossyFn := func(name string) bool {
 					switch name {
 					case "strings.Fields", "strings.ToLower", "strings.ToUpper", "strings.TrimSpace", "strings.Title", "strings.Replace", "strings.ReplaceAll", "strings.Map":
@@ -680,6 +681,13 @@ func init() {
 					}
 				}
 				kwalk(keyV, 0, "")
+				if ph, ok := keyV.(*ssa.Phi); ok {
+					for _, e := range ph.Edges {
+						if prm, isP := e.(*ssa.Parameter); isP && lossyVia[prm] != "" {
+							lossyMerged[prm] = true
+						}
+					}
+				}
 				bad := ""
 				seen := map[ssa.Value]bool{}
 				var walk func(v ssa.Value, depth int)
@@ -693,7 +701,9 @@ func init() {
 						case *ssa.Parameter:
 							isRecv := fn.Signature.Recv() != nil && len(fn.Params) > 0 && x == fn.Params[0]
 							if keyParams[x] {
-								if via := lossyVia[x]; via != "" && !exact[x] {
+								// (a key that is the raw text on one path and a digest of it on another — `key := expr;
+								// if … { key = strings.ReplaceAll(key, " ", "") }` — is a digest)
+								if via := lossyVia[x]; via != "" && (!exact[x] || lossyMerged[x]) {
 									bad = fmt.Sprintf("the cached value is computed from parameter %q as given, but the key only holds a digest of it (%s): two different values that %s maps to the same text share one entry, and the one cached first answers for both", x.Name(), via, via)
 								}
 								continue
@@ -786,6 +796,46 @@ func init() {
 					}
 				}
 				walk(valV, 0)
+				// a value computed from files (a filesystem is among the things it is computed from) is only as good
+				// as the revision of the files it was computed from: the memo has to know that revision
+				if bad == "" {
+					fileDep := ""
+					for v := range seen {
+						t := v.Type()
+						if isNamed(t, "io/fs", "FS") || isNamed(t, "io/fs", "ReadFileFS") || isNamed(t, "io/fs", "StatFS") {
+							fileDep = describeValue(v)
+						}
+					}
+					if fileDep != "" {
+						fresh := false
+						for g := range p.Cone(fn) {
+							for _, s2 := range callsIn(g) {
+								if n := calleeName(s2.Common()); strings.HasSuffix(n, ".ModTime") || strings.HasSuffix(n, ".Stat") || n == "io/fs.Stat" {
+									fresh = true
+								}
+							}
+						}
+						if !fresh {
+							bad = "the cached value is computed from files read through a filesystem (" + fileDep + "), and neither the key nor the lookup knows the revision of those files (no Stat / ModTime anywhere near): the entry outlives every edit of a file it was computed from"
+						}
+					}
+				}
+				// a set (the stored value is a constant: struct{}{}, true): what is remembered is *that* the key was
+				// stored, so the conditions under which it is stored are the memoised result
+				sv := valV
+				if mi, ok := sv.(*ssa.MakeInterface); ok {
+					sv = mi.X
+				}
+				if _, isConst := sv.(*ssa.Const); isConst && bad == "" {
+					for _, g := range controllingIfs(at) {
+						for _, leaf := range condLeaves(g.If.Cond) {
+							walk(leaf, 0)
+						}
+					}
+					if bad != "" {
+						bad = "whether the key is remembered is decided by a condition that " + strings.TrimPrefix(bad, "the cached value ")
+					}
+				}
 				c.check(bad == "", shortName(fn)+": "+desc, p.instrPos(at), "stored value is a function of the key (and the engine's configuration) only", bad+": a later lookup with the same key returns a result computed for other data")
 			}
 			for _, a := range p.collectSharedAccesses() {
